@@ -305,6 +305,14 @@ theorem built_shRel (now0 : Int) (t : Tree) (d : Nat) (hd : t.depth ≤ d + 1) (
   exact ⟨c0, rest, p, ps, rfl, rfl, hc, hU', hfl⟩
 
 
+
+/-- `NewComposite` leaves the `started` flag unset -/
+theorem built_unstarted (now0 : Int) (t : Tree) (d : Nat) (hd : t.depth ≤ d + 1) (c : Comp (Lvl d))
+    (hb : build now0 (d + 1) t = .ok (.inr c)) : c.started = false := by
+  have hU := build_U now0 (d + 1) t (.inr c) hd hb
+  obtain ⟨c0, rest, p, ps, rfl, _, _, _⟩ := (show compU (lvlSem d) c (flat t) from hU)
+  rfl
+
 theorem reach_split {A0 : Abs} : ∀ (newer older : Log) (A : Abs), Reach A0 (newer ++ older) A →
     ∃ A1, Reach A0 older A1 ∧ Reach A1 newer A
   | [], older, A, h => ⟨A, h, rfl⟩
